@@ -277,6 +277,23 @@ theorem binNDs_sum (ss dims : List Nat) (hl : ss.length = dims.length) (v : List
       rw [List.map_flatten, sum_flatten', List.map_map]; rfl
     rw [e1, hflat, ← sum_flatten', chunks_flatten _ _ _ h]
 
+/-- `(N / D) * D = N` elementwise when no denominator vanishes -/
+theorem zipWith_div_mul_cancel : ∀ (N D : List K), (∀ x ∈ D, x ≠ 0) → N.length = D.length →
+    List.zipWith (· * ·) (List.zipWith (· / ·) N D) D = N := by
+  intro N
+  induction N with
+  | nil => intro D _ _; simp
+  | cons n N ih =>
+    intro D hD hl
+    cases D with
+    | nil => simp at hl
+    | cons d D =>
+      simp only [List.length_cons, Nat.add_right_cancel_iff] at hl
+      have hd : d ≠ 0 := hD d (by simp)
+      simp only [List.zipWith_cons_cons, ih D (fun x hx => hD x (by simp [hx])) hl]
+      congr 1
+      field_simp
+
 end sums
 
 /-! ### the index map of binning -/
